@@ -13,6 +13,7 @@ obligation, and reports `no-failing-input-found` otherwise.
 """
 from __future__ import annotations
 
+import ast
 import os
 import re
 import tempfile
@@ -30,12 +31,28 @@ _IMG = "deepali/core/image.py"
 _LF = "deepali/losses/functional.py"
 _FL = "deepali/core/flow.py"
 _AFF = "deepali/core/affine.py"
+_DIMG = "deepali/data/image.py"
 _RN_EUL = {f"{t}[..., {k}]": f"{t}{k}" for t in "cs" for k in range(3)}
 _RN_GRID = {"self._size": "n", "num_[::2]": "lo", "num_[1::2]": "hi"}
 _RN_ROI_G = {"start[i]": "start", "size[i]": "size", "grid_size[i]": "m"}
 _RN_ROI_T = {"start[i]": "start", "size[i]": "size", "data.shape[data.ndim - 1 - i]": "m"}
 
 _RN_TF = {"self.size_tensor()": "size"}
+
+
+def _norm(expr: str) -> str:
+    """`ast.unparse` spelling of an expression (the key form of `Frag.rename` / `Frag.tests`) under the running Python"""
+    return ast.unparse(ast.parse(expr, mode="eval").body)
+
+
+# ImageBatch.pyramid (data/image.py): the test that chooses between the plain data resize and sampling at the new grid's
+# points, the two data expressions, and the provenance of `source_grids`. The statements are matched TEXTUALLY (after
+# `ast.unparse`): any other operand of the comparison (`self._grid[0]`, `.extent()`, …) leaves the fragment untranslated.
+_PYR_TEST = _norm("torch.allclose(grids[0].cube_extent(), source_grids[0].cube_extent())")
+_PYR_POINTS = _norm("torch.cat([grid_transform_points(grid.coords(align_corners=align_corners, device=self.device), grid, axes,"
+                    " source_grid, axes).unsqueeze(0) for grid, source_grid in zip(grids, source_grids)], dim=0)")
+_PYR_REFLAG = _norm("tuple(grid.align_corners(align_corners) for grid in self._grid)")
+_PYR_LEVEL0 = _norm("tuple(grid.pyramid(levels, dims=dims, min_size=min_size)[0] for grid in grids)")
 
 
 def _tf(name, occ, params, **kw):
@@ -104,6 +121,22 @@ REGISTRY: Dict[str, List[Tuple[Frag, str]]] = {
         (Frag("tensor_center_pad_hi", _IMG, "center_pad", "assign", {"n": "int"}, target="pad", occ=(1, 1), elt=1), "int"),
         (Frag("tensor_roi_lo", _IMG, "region_of_interest", "assign", {"start": "int", "size": "int", "m": "int"}, target="num", occ=(1, 1), elt=0, rename=_RN_ROI_T), "int"),
         (Frag("tensor_roi_hi", _IMG, "region_of_interest", "assign", {"start": "int", "size": "int", "m": "int"}, target="num", occ=(1, 1), elt=1, rename=_RN_ROI_T), "int"),
+        # data layer (data/image.py): the finest level of ImageBatch.pyramid
+        (Frag("pyramid_finest_data", _DIMG, "ImageBatch.pyramid", "block",
+              {"extents_close": "bool", "size0": "int", "resized": "real", "axes0": "int", "points0": "real", "sampled": "real"},
+              tests=(_PYR_TEST,), outs=("data",), out_kinds={"data": "real"},
+              rename={_PYR_TEST: "extents_close", "grids[0].size()": "size0",
+                      "U.grid_resize(self, size, mode=mode, align_corners=align_corners)": "resized",
+                      "Axes.from_align_corners(align_corners)": "axes0", _PYR_POINTS: "points0",
+                      "U.grid_sample(self, points, mode=mode, align_corners=align_corners)": "sampled"}), "real"),
+        # `source_grids` is the FIRST value of `grids` (the image grids re-flagged with the requested convention), bound before
+        # `grids` is replaced by the finest-level grids
+        (Frag("pyramid_source_grids", _DIMG, "ImageBatch.pyramid", "lets", {"reflagged": "real", "level0": "real"},
+              lets=("grids", "source_grids", "grids"), result="=source_grids",
+              rename={_PYR_REFLAG: "reflagged", _PYR_LEVEL0: "level0"}), "real"),
+        (Frag("pyramid_finest_grids", _DIMG, "ImageBatch.pyramid", "lets", {"reflagged": "real", "level0": "real"},
+              lets=("grids", "source_grids", "grids"), result="=grids",
+              rename={_PYR_REFLAG: "reflagged", _PYR_LEVEL0: "level0"}), "real"),
     ],
     "C08": [
         (Frag("shear_dim", _AFF, "shear_matrix", "block", {"N": "int"}, tests=("N == 1",), outs=("D",), out_kinds={"D": "int"}), "int"),
@@ -174,6 +207,16 @@ REGISTRY: Dict[str, List[Tuple[Frag, str]]] = {
         (Frag(f"fd_{v}_{nm}", _IMG, "finite_differences", "assign", {"n": "int", "dilation": "int"}, target=v, occ=(k, k),
               arg_of="slice", rename={"data.shape[dim]": "n"}), "int")
         for v in ("i", "j") for k, nm in enumerate(("forward", "backward", "central", "lower", "mid", "upper"))
+    ] + [
+        # data/flow.py FlowFields.curl: the whole `if spacing is None:` block — the if / elif / elif / else chain on
+        # `self.axes()` that derives the spacing passed to U.curl (one spatial axis: sp = self.spacing()[b, i],
+        # n = self.grid().size()[i], a Python int). The tests are named by Bool parameters, so that an edit of a test
+        # (other enum member, `==` instead of `is`, reordered branches with different tests) leaves the supported subset.
+        (Frag("curl_spacing", "deepali/data/flow.py", "FlowFields.curl", "block",
+              {"spacing": "optreal", "is_grid": "bool", "is_world": "bool", "is_cube": "bool", "sp": "real", "n": "int"},
+              tests=("spacing is None",), outs=("spacing",), elt=0,
+              rename={"self.axes() is Axes.GRID": "is_grid", "self.axes() is Axes.WORLD": "is_world",
+                      "self.axes() is Axes.CUBE": "is_cube", "self.spacing()": "sp", "self.grid().size()": "n"}), "real"),
     ],
     "C11": [
         (Frag("expv_sign", _FL, "expv", "block", {"scale": "real", "inverse": "bool"}, tests=("inverse",), outs=("scale",)), "real"),
@@ -269,6 +312,10 @@ def check(prop: str) -> Dict[str, object]:
     starts = [(i + 1, m.group(1)) for i, l in enumerate(lines) for m in [re.match(r"\s*theorem\s+([A-Za-z_][A-Za-z0-9_']*)", l)] if m]
     err_lines = [int(m.group(1)) for m in re.finditer(r"Gen" + re.escape(prop) + r"\.lean:(\d+):\d+: error", out)]
     hit_all = p.returncode != 0 and not err_lines
+    # an error on one of the appended `#print axioms` lines (the named theorem does not exist) is already recorded for THAT
+    # theorem by the regex above; it must not be attributed to the last theorem of the file
+    n_tmpl = len(tmpl.replace(MARK, text).splitlines())
+    err_lines = [ln for ln in err_lines if ln <= n_tmpl]
     for ln in err_lines:
         owner = [nm for (st, nm) in starts if st <= ln]
         if owner and owner[-1] in detail:
